@@ -435,7 +435,8 @@ def run_case(ops: list[dict], known_sites: typing.Sequence[str] = ()) -> dict:
             if only_cycles is not None:
                 # tracing a segment may be refused for reasons the property does not list (ambiguous / disconnected
                 # tail, shape); what it does list is that cycles are rejected - and only cycles are called cycles
-                if cyclic and not only_cycles:
+                # (with placeholders around, Node.__eq__ across classes can make a traversal see a node "again")
+                if cyclic and not only_cycles and not any(m['kind'] == 'future' for m in model.nodes.values()):
                     raise CaseViolation('spurious-error', f'{where}: raised Cyclic({reason}) but no cycle is reachable '
                                                           f'in the model', step)
                 return None
@@ -512,7 +513,8 @@ def run_case(ops: list[dict], known_sites: typing.Sequence[str] = ()) -> dict:
                         trial = model.clone()
                         trial.add_edge(tp, tb, w, T)
                         reason = trial.check_edge(lp, lb, w, L)
-                where = f'step {step}: node{w}.train(node{tp}[{tb}], node{lp}[{lb}])'
+                where = f'step {step}: node{w}.train(node{tp}[{tb}], node{lp}[{lb}])' + (
+                    ' [placeholder]' if model.is_future(tp) or model.is_future(lp) else '')
 
                 def commit(w=w, tp=tp, tb=tb, lp=lp, lb=lb):
                     model.add_edge(tp, tb, w, T)
@@ -526,8 +528,10 @@ def run_case(ops: list[dict], known_sites: typing.Sequence[str] = ()) -> dict:
                     # that state (and nothing else) so that the rest of the sequence is still judged.
                     trial = model.clone()
                     trial.add_edge(tp, tb, w, T)
-                    if err.klass != 'state-changed-after-error' or 'train-not-atomic' not in known_sites or \
-                            world.observe() != trial.expected() or world.invariants() is not None:
+                    exact = err.klass == 'state-changed-after-error' and world.observe() == trial.expected()
+                    if exact:  # precisely the listed shape: the Train subscription (and nothing else) was kept
+                        err.detail += ' [exactly: the Train subscription was kept, the worker counts as trained]'
+                    if not exact or 'train-not-atomic' not in known_sites or world.invariants() is not None:
                         raise
                     model.raw[:] = trial.raw
                     known_hits.append({'id': 'train-not-atomic', 'detail': err.detail, 'step': step})
@@ -584,7 +588,8 @@ def run_case(ops: list[dict], known_sites: typing.Sequence[str] = ()) -> dict:
                     expect = 'placeholder in composition'
                 where = f'step {step}: Composition over Segment(node{head}..node{tail})'
                 call(lambda: flow.Composition(graphs.Const(flow.Trunk(seg))), where, expect, step,
-                     unknown=status == 'unknown' or visited_future is None or model.has_cycle_from(head))
+                     unknown=status == 'unknown' or visited_future is None or model.has_cycle_from(head),
+                     only_cycles=model.has_cycle_from(head))
                 stats['op:compose'] += 1
             elif kind == 'keep':
                 world.keep_next = True
